@@ -263,7 +263,10 @@ func (i *ICMPv4) NextLayerType() gopacket.LayerType {
 }
 
 func (i *ICMPv4) VerifyChecksum() (error, gopacket.ChecksumVerificationResult) {
-	bytes := append(i.Contents, i.Payload...)
+	// Contents usually has spare capacity reaching into the packet's buffer, so
+	// appending to it would write into data that other readers share.
+	bytes := make([]byte, 0, len(i.Contents)+len(i.Payload))
+	bytes = append(append(bytes, i.Contents...), i.Payload...)
 
 	existing := i.Checksum
 	verification := gopacket.ComputeChecksum(bytes, 0)
